@@ -14,6 +14,8 @@ from common import *  # noqa
 
 PID = 'C18'
 TOL = 1e-8
+TOL_SINGLE = 5e-5      # float32 storage, and bool / uint8 storage (scipy.linalg runs those in single precision)
+DTYPES = ('float64', 'int64', 'bool', 'uint8', 'int32', 'float32', 'float64', 'bool', 'int64', 'uint8')
 DAMP = (0.5, 0.85, 0.99)
 
 
@@ -132,7 +134,12 @@ def gen_cases(rs, tier):
     def add(fam, A, kind='und', ds=DAMP, falff=None, den=1):
         """A holds integer numerators; the real routines are called on A / den (den a power of two: exact in floats)"""
         A = np.asarray(A, dtype=float)
-        cases.append({'fam': fam, 'kind': kind, 'A': A.astype(int).tolist(), 'den': int(den), 'd': list(ds), 'falff': falff})
+        t_ = len(cases)
+        dt = DTYPES[t_ % len(DTYPES)] if den == 1 else 'float64'
+        if dt == 'bool' and A.max(initial=0) > 1:
+            dt = 'uint8'
+        cases.append({'fam': fam, 'kind': kind, 'A': A.astype(int).tolist(), 'den': int(den), 'd': list(ds), 'falff': falff,
+                      'dtype': dt, 'order': 'F' if t_ % 4 == 2 else 'C'})
 
     # every connected labelled graph n<=5 (thorough); one representative per isomorphism class + a random labelled slice (quick)
     seen = set()
@@ -312,9 +319,16 @@ def run_case(c):
     F = out['fails']
     mstr = mat_str(Anum)
     dstr = '' if den == 1 else ' den=%d' % den
+    dt = c.get('dtype', 'float64')
+    Ar = A if (dt == 'float64' and c.get('order', 'C') == 'C') else np.array(A.astype(dt), order=c.get('order', 'C'))
+    assert np.array_equal(np.asarray(Ar, dtype=float), A)       # every cast is exact (integer weights, bool only for binary graphs)
+    single = dt in ('float32', 'bool', 'uint8')
+    tol = TOL_SINGLE if single else TOL
+    ka = tol / TOL                                              # absolute tolerances are scaled with it
+    out['dtype'] = dt
 
-    def fail(func, pred, info):
-        F.append((func, pred, info))
+    def fail(func, pred, info, extra=None):
+        F.append((func, pred, info, extra or {}))
 
     def guarded(func, f, *a):
         st, v = call(f, *a, t=10.0, retry=10)
@@ -331,7 +345,7 @@ def run_case(c):
     if conn and n >= 2:
         rs_ = A.sum(1)
         P = A / rs_[:, None]
-        M = guarded('mean_first_passage_time', bct.mean_first_passage_time, A.copy())
+        M = guarded('mean_first_passage_time', bct.mean_first_passage_time, Ar.copy())
         if M is not None:
             M = np.asarray(M)
             out['ops'].append('mfpt')
@@ -344,25 +358,25 @@ def run_case(c):
                     for j in range(n):
                         rhs[i, j] = 0.0 if i == j else 1 + sum(P[i, k] * M[k, j] for k in range(n) if k != j)
                 off = ~np.eye(n, dtype=bool)
-                if not close(M[off], rhs[off]):
+                if not close(M[off], rhs[off], tol):
                     fail('mean_first_passage_time', 'mfpt-recurrence', {'M': M.tolist(), 'maxres': float(np.abs(M - rhs)[off].max())})
-                if np.abs(np.diag(M)).max() > 1e-9:
+                if np.abs(np.diag(M)).max() > 1e-9 * ka:
                     fail('mean_first_passage_time', 'mfpt-diagonal', {'diag': np.diag(M).tolist()})
-                if (M[off] < 1 - 1e-9).any():
+                if (M[off] < 1 - 1e-9 * ka).any():
                     fail('mean_first_passage_time', 'mfpt-at-least-one-step', {'M': M.tolist()})
-                out['lines'].append(('mfpt', 'mfpt n=%d A=%s%s' % (n, mstr, dstr), {'M': M.ravel().tolist()}))
-            de = guarded('diffusion_efficiency', bct.diffusion_efficiency, A.copy())
+                out['lines'].append(('mfpt', 'mfpt n=%d A=%s%s' % (n, mstr, dstr), {'M': M.ravel().tolist(), 'tol': tol}))
+            de = guarded('diffusion_efficiency', bct.diffusion_efficiency, Ar.copy())
             if de is not None and M.shape == (n, n) and np.all(np.isfinite(M)):
                 g, E = de; E = np.asarray(E, dtype=float)
                 out['ops'].append('diffeff')
                 off = ~np.eye(n, dtype=bool)
-                if E.shape != (n, n) or not close((E * M.real)[off], np.ones(n * n - n)):
+                if E.shape != (n, n) or not close((E * M.real)[off], np.ones(n * n - n), tol):
                     fail('diffusion_efficiency', 'diffeff-inverse', {'E': E.tolist()})
                 elif np.abs(np.diag(E)).max() != 0:
                     fail('diffusion_efficiency', 'diffeff-diagonal', {'diag': np.diag(E).tolist()})
-                elif not close(g, E[off].mean()):
+                elif not close(g, E[off].mean(), tol):
                     fail('diffusion_efficiency', 'diffeff-mean', {'g': float(g), 'mean': float(E[off].mean())})
-                out['lines'].append(('diffeff', 'diffeff n=%d A=%s%s' % (n, mstr, dstr), {'g': float(g), 'E': E.ravel().tolist()}))
+                out['lines'].append(('diffeff', 'diffeff n=%d A=%s%s' % (n, mstr, dstr), {'g': float(g), 'E': E.ravel().tolist(), 'tol': tol}))
 
     # ---- PageRank
     deg = A.sum(0)
@@ -370,7 +384,7 @@ def run_case(c):
         f = c.get('falff')
         for d in c['d']:
             fa = None if f is None else np.array(f, dtype=float)
-            r = guarded('pagerank_centrality', bct.pagerank_centrality, A.copy(), d, fa)
+            r = guarded('pagerank_centrality', bct.pagerank_centrality, Ar.copy(), d, fa)
             if r is None:
                 continue
             r = np.asarray(r, dtype=float)
@@ -380,32 +394,32 @@ def run_case(c):
             if r.shape != (n,) or not np.all(np.isfinite(r)):
                 fail('pagerank_centrality', 'pagerank-finite', dict(cond, r=str(r)))
                 continue
-            if abs(r.sum() - 1) > 1e-9:
+            if abs(r.sum() - 1) > 1e-9 * ka:
                 fail('pagerank_centrality', 'pagerank-sum-one', dict(cond, r=r.tolist()))
             if (deg > 0).all():
                 rhs = d * (A / deg[None, :]) @ r + (1 - d) * nf
-                if not close(r, rhs):
+                if not close(r, rhs, tol):
                     fail('pagerank_centrality', 'pagerank-fixed-point', dict(cond, r=r.tolist(), rhs=rhs.tolist()))
                 if not ((r > 0) | ((nf == 0) & (r >= -1e-15))).all() or (conn and not (r > 0).all()):
                     fail('pagerank_centrality', 'pagerank-positive', dict(cond, r=r.tolist()))
             elif (r < -1e-15).any():
                 fail('pagerank_centrality', 'pagerank-positive', dict(cond, r=r.tolist()))
             line = 'pagerank n=%d A=%s%s d=%s' % (n, mstr, dstr, fr(d)) + ('' if f is None else ' f=' + ','.join(str(x) for x in f))
-            out['lines'].append(('pagerank', line, {'r': r.tolist()}))
+            out['lines'].append(('pagerank', line, {'r': r.tolist(), 'tol': tol}))
 
     # ---- spectral measures (undirected)
     if und and n >= 1:
-        Cs = guarded('subgraph_centrality', bct.subgraph_centrality, A.copy())
+        Cs = guarded('subgraph_centrality', bct.subgraph_centrality, Ar.copy())
         if Cs is not None:
             Cs = np.asarray(Cs)
             out['ops'].append('subgraph')
             ref = np.diag(sla.expm(A))
-            if Cs.shape != (n,) or not close(Cs, ref):
+            if Cs.shape != (n,) or not close(Cs, ref, tol):
                 fail('subgraph_centrality', 'expm-diagonal', {'Cs': np.asarray(Cs).tolist(), 'expm_diag': ref.tolist()})
-            if den == 1:
+            if den == 1 and not single:
               out['lines'].append(('expdiag', 'expdiag n=%d A=%s terms=%d' % (n, mstr, n_terms(A)), {'S': np.asarray(Cs, dtype=float).tolist()}))
             # post-processing as coded, on the same eigh output (LAPACK is deterministic): dot(vecs*vecs, exp(vals)); oracle contract checked
-            if np.allclose(A, A.T) and Cs.shape == (n,):
+            if np.allclose(A, A.T) and Cs.shape == (n,) and not single:
                 w_, V_ = sla.eigh(A)
                 okc = (np.abs(A @ V_ - V_ * w_[None, :]).max() <= 1e-8 * max(1.0, np.abs(w_).max())
                        and np.abs(V_ @ V_.T - np.eye(n)).max() <= 1e-10)
@@ -413,7 +427,7 @@ def run_case(c):
                 ev = np.exp(w_)
                 out['lines'].append(('subpost', 'subpost n=%d A=%s vecs=%s ev=%s' % (n, mstr, frs(V_), frs(ev)),
                                      {'S': np.real(Cs).astype(float).tolist()}))
-        v = guarded('eigenvector_centrality_und', bct.eigenvector_centrality_und, A.copy())
+        v = guarded('eigenvector_centrality_und', bct.eigenvector_centrality_und, Ar.copy())
         if v is not None:
             v = np.asarray(v)
             out['ops'].append('eigvec')
@@ -424,18 +438,20 @@ def run_case(c):
                 v = v.astype(float)
                 if (v < 0).any():
                     fail('eigenvector_centrality_und', 'eig-nonneg', {'v': v.tolist()})
-                if abs(np.linalg.norm(v) - 1) > 1e-9:
+                if abs(np.linalg.norm(v) - 1) > 1e-9 * ka:
                     fail('eigenvector_centrality_und', 'eig-unit-norm', {'v': v.tolist(), 'norm': float(np.linalg.norm(v))})
                 res = float(np.abs(A @ v - lam * v).max())
-                if res > TOL * max(1.0, abs(lam)):
+                if res > tol * max(1.0, abs(lam)):
                     fail('eigenvector_centrality_und', 'eig-residual-lambda-max', {'v': v.tolist(), 'lambda_max': lam, 'residual': res})
                 Av = A @ v
                 # post-processing as coded on the same eig output: i = argmax(vals); abs(vecs[:, i]); oracle contract checked
-                w_, V_ = sla.eig(A)
+                w_, V_ = sla.eig(A) if not single else (np.array([1j]), np.zeros((1, 1), dtype=complex))
                 # For a repeated non-maximal eigenvalue LAPACK may return a complex-conjugate pair (imaginary parts ~1e-16) with complex
                 # columns; the contract `EigOracle A vals vecs i` only concerns the selected column i and the list of eigenvalues.
                 i_ = int(np.argmax(w_)); wr = np.real(w_); sc = max(1.0, np.abs(wr).max())
-                if np.abs(np.imag(w_)).max() <= 1e-9 * sc and np.abs(np.imag(V_[:, i_])).max() == 0:
+                if single:
+                    pass        # single-precision LAPACK path: judged by the search predicates only
+                elif np.abs(np.imag(w_)).max() <= 1e-9 * sc and np.abs(np.imag(V_[:, i_])).max() == 0:
                     col = np.real(V_[:, i_])
                     okc = (np.abs(A @ col - wr[i_] * col).max() <= 1e-8 * sc and abs(col @ col - 1) <= 1e-10
                            and np.abs(np.sort(wr) - np.linalg.eigvalsh(A)).max() <= 1e-8 * sc
@@ -447,12 +463,12 @@ def run_case(c):
                     out['contract'].append(('eig-selected-column-not-real', False))   # the theorem's hypothesis is not met: reported as a break
                 exp = {'nrm2': float(v @ v), 'vmin': float(v.min()), 'ray': float(v @ Av / (v @ v)) if v @ v > 0 else None,
                        'lam': lam, 'conn': bool(conn)}
-                if den == 1:
+                if den == 1 and not single:
                   out['lines'].append(('eigcert', 'eigcert n=%d A=%s v=%s' % (n, mstr, ','.join(fr(x) for x in v)), exp))
 
     # ---- findwalks (binary directed / undirected; weights discarded)
     if n >= 2:
-        fw = guarded('findwalks', bct.findwalks, A.copy())
+        fw = guarded('findwalks', bct.findwalks, Ar.copy())
         if fw is not None:
             Wq, twalk, wlq = fw
             Wq = np.asarray(Wq); wlq = np.asarray(wlq)
@@ -463,15 +479,24 @@ def run_case(c):
                 fail('findwalks', 'walk-shape', {'shape': list(Wq.shape)})
             else:
                 bad = [q for q in range(1, n) if not np.array_equal(Wq[:, :, q], C[q])]
+                artefact = False
+                if bad and dt in ('bool', 'uint8'):
+                    # known defect: `binarize` keeps the storage type, so the powers are computed in it: logical products for bool
+                    # (walk *existence*), arithmetic modulo 256 for uint8. Attributed only if the output is exactly that.
+                    emu = [(C[q] > 0).astype(float) if dt == 'bool' else (C[q] % 256).astype(float) for q in range(n)]
+                    artefact = all(np.array_equal(Wq[:, :, q], emu[q]) for q in range(1, n))
                 if bad:
                     q = bad[0]
-                    fail('findwalks', 'walk-count', {'q': q, 'Wq_q': Wq[:, :, q].tolist(), 'true': C[q].tolist()})
+                    fail('findwalks', 'walk-count', {'q': q, 'dtype': dt, 'Wq_q': Wq[:, :, q].tolist(), 'true': C[q].tolist()}, {'dtype_artefact': bool(artefact)})
                 if np.any(Wq[:, :, 0] != 0):
                     fail('findwalks', 'walk-slice0', {'Wq_0': Wq[:, :, 0].tolist()})
                 if not np.array_equal(wlq, Wq.sum(0).sum(0)) or twalk != Wq.sum():
                     fail('findwalks', 'walk-totals', {'twalk': float(twalk), 'wlq': wlq.tolist()})
                 sl = ';'.join(mat_str(Wq[:, :, q]) for q in range(n))
-                out['lines'].append(('findwalks', 'findwalks n=%d A=%s' % (n, mstr),
+                if artefact:
+                    out['nocorr'] = 1
+                else:
+                  out['lines'].append(('findwalks', 'findwalks n=%d A=%s' % (n, mstr),
                                      {'line': 'Wq=%s twalk=%d wlq=%s' % (sl, int(twalk), ','.join(str(int(x)) for x in wlq))}))
     return out
 
@@ -615,12 +640,12 @@ def compare(op, res, exp):
     d = kv(res)
     try:
         if op == 'mfpt':
-            return None if close(exp['M'], fvals(d['M'])) else 'M differs'
+            return None if close(exp['M'], fvals(d['M']), exp.get('tol', TOL)) else 'M differs'
         if op == 'diffeff':
-            ok = close(exp['E'], fvals(d['E'])) and close(exp['g'], float(Fraction(d['g'])))
+            ok = close(exp['E'], fvals(d['E']), exp.get('tol', TOL)) and close(exp['g'], float(Fraction(d['g'])), exp.get('tol', TOL))
             return None if ok else 'g/E differs'
         if op == 'pagerank':
-            return None if close(exp['r'], fvals(d['r'])) else 'r differs'
+            return None if close(exp['r'], fvals(d['r']), exp.get('tol', TOL)) else 'r differs'
         if op == 'findwalks':
             return None if res == exp['line'] else 'Wq/twalk/wlq differ'
         if op == 'expdiag':
@@ -669,7 +694,7 @@ def malformed_stream(bct):
 def main():
     ck = Check(PID)
     ck.cov['rule'] = ('cases = (graph, damping d, prior f): every connected labelled graph on <=5 nodes (thorough; one per isomorphism class plus a random '
-                      'labelled slice in quick), all graphs on <=4 nodes, cycles, K_{a,b}, regular graphs (circulants, K_n, cube, Petersen), disjoint copies (block ordered and with interleaved / randomly shuffled node labels), '
+                      'labelled slice in quick), all graphs on <=4 nodes, cycles, K_{a,b}, regular graphs (circulants, K_n, cube, Petersen), disjoint copies (block ordered and with interleaved / randomly shuffled node labels), every integer-weighted case stored as float64 / int64 / int32 / float32 / uint8 / bool (binary graphs) in C or Fortran order, '
                       'random weighted connected undirected and strongly connected directed graphs n=3..6, rational weights k/den (den=2..16: trees, cycles, pendant nodes, weak directed cycles with row/column strengths in (0,1)), d in {.5,.85,.99}; each case is run through '
                       'every routine whose domain contains it; the case list is shuffled before it is split over the workers; history / object-reuse probes (argument edited in place between two calls, returned array edited in place, g(A) between two f(A), f(A) g(B) f(B) f(A) on same-size inputs, prior option then default); non-trivial = distinct (graph, d, f) with at least one edge on which at least one routine returned')
     ck.assumptions += ['random-walk measures only on connected undirected / strongly connected directed inputs; spectral measures on symmetric non-negative input',
@@ -704,8 +729,11 @@ def main():
             ck.count('oracle_contract:%s:%s' % (kind, 'ok' if okc else 'FAILED'))
             if not okc:
                 ck.corr_break('LAPACK output does not meet the oracle contract assumed by eigenvector_spec / subgraph_spec (%s)' % kind, {'case': c})
-        for func, pred, info in r['fails']:
-            cond = {'family': c['fam'], 'den': c.get('den', 1)}
+        ck.count('dtype:%s/%s' % (c.get('dtype', 'float64'), c.get('order', 'C')))
+        if r.get('nocorr'):
+            ck.count('correspondence_skipped(findwalks storage-type artefact: reported as a violation, not sent to the model)')
+        for func, pred, info, extra in r['fails']:
+            cond = dict({'family': c['fam'], 'den': c.get('den', 1), 'dtype_artefact': False}, **extra)
             ck.violation(func, pred, {'case': c, 'info': info}, cond)
         for op, line, exp in r['lines']:
             lines.append(line); meta.append((c, op, exp))
